@@ -38,8 +38,8 @@ def rand_acct(rng):
 
 
 def rand_via(rng):
-    return {"mnemonic": rng.choice(["flag", "env", "short"]), "password": rng.choice(["flag", "env"]), "index": rng.choice(["flag", "env"]),
-            "path": rng.choice(["flag", "env"])}
+    return {"mnemonic": rng.choice(["flag", "env", "short"]), "password": rng.choice(["flag", "env", "sep"]), "index": rng.choice(["flag", "env", "sep"]),
+            "path": rng.choice(["flag", "env", "sep"])}
 
 
 def gen(rng, tier):
